@@ -173,6 +173,16 @@ func styleWitnesses(v *spec.View, el string) []string {
 	return out
 }
 
+// firstBare: some non-void, non-raw-text element the policy allows without attributes (a container for leaf tests).
+func firstBare(elems []string, v *spec.View) string {
+	for _, e := range elems {
+		if v.BareAllowed(e) && !obs.IsVoid(e) && !rawish[e] {
+			return e
+		}
+	}
+	return "b"
+}
+
 var patternCandidates = []string{"my-x", "my-xy", "my-y", "my-ab", "ui-card", "zz-top", "object", "title", "iframe", "b", "img", "p"}
 
 func c07Elements(v *spec.View) []string {
@@ -275,6 +285,12 @@ func runC07(c *run.Ctx) {
 					}
 				}
 				continue
+			}
+			if v.BareAllowed(el) && !obs.IsVoid(el) {
+				// the self-closing spelling of an element allowed without attributes is written back as it came
+				sc := html.Token{Type: html.SelfClosingTagToken, Data: el}.String()
+				check(sc)
+				check("<" + firstBare(elems, v) + ">a" + sc + "b</" + firstBare(elems, v) + ">")
 			}
 			for _, st := range tagVariants(v, el, maxAttrs, true) {
 				if obs.IsVoid(el) {
